@@ -169,6 +169,12 @@ class BoundMethod:
 
 
 @dataclass
+class Havocked:
+    """An unknown object reference left by a loop havoc; every use is outside the subset (Unsupported)."""
+    name: str
+
+
+@dataclass
 class ClassVal:
     name: str
     module: str
@@ -882,7 +888,13 @@ class Interp:
             except (KeyError, Unsupported, PyRaise):
                 continue
             if isinstance(obj, Obj) and a.attr in obj.fields:
-                obj.fields[a.attr] = self.havoc_value(obj.fields[a.attr], a.attr)
+                cur = obj.fields[a.attr]
+                if isinstance(a.ctx, ast.Store) and (cur is None or isinstance(cur, (Obj, Havocked))):
+                    # the attribute is rebound to some object in the loop: after an arbitrary number of iterations
+                    # it holds an unknown reference; any use of it before it is assigned again is refused.
+                    obj.fields[a.attr] = Havocked(a.attr)
+                    continue
+                obj.fields[a.attr] = self.havoc_value(cur, a.attr)
 
     def havoc_value(self, cur, name):
         if isinstance(cur, Box):
@@ -926,6 +938,8 @@ class Interp:
         def test():
             if pos0 is not None:   # keep the iterator's ghost position in step with the loop index
                 it.pos = self.binop(ast.Add(), pos0, env.lookup(idx_name), st.lineno)
+            if length is None:
+                return True        # itertools.count(): never exhausted
             return self.compare_op(ast.Lt(), env.lookup(idx_name), length)
 
         def pre_body():
@@ -939,7 +953,7 @@ class Interp:
         def sync():
             # facts about any for-loop over a sequence: the hidden index is within 0..len
             zi = to_z3(env.lookup(idx_name))
-            self.path.assume(z3.And(zi >= 0, zi <= to_z3(length)))
+            self.path.assume(zi >= 0 if length is None else z3.And(zi >= 0, zi <= to_z3(length)))
             if pos0 is not None:
                 it.pos = self.binop(ast.Add(), pos0, env.lookup(idx_name), st.lineno)
         self.run_invariant_loop(st, env, spec, ordinal, test, pre_body, on_havoc=sync)
@@ -955,6 +969,8 @@ class Interp:
             else:
                 length = max(length, 0)
             return it, length, (lambda i: self.binop(ast.Add(), it.start, i, lineno))
+        if isinstance(it, CountVal):
+            return it, None, (lambda i: self.binop(ast.Add(), it.start, i, lineno))
         if isinstance(it, SIter):
             p0 = to_z3(it.pos)
             n = to_z3(it.length) - p0
@@ -1796,6 +1812,11 @@ class RangeVal:
     start: Any
     stop: Any
     step: Any = 1
+
+
+@dataclass
+class CountVal:
+    start: Any = 0
 
 
 @dataclass
